@@ -250,9 +250,17 @@ def require_verified_reset(ctx, facts, specs, rule):
     analyzers, verified = {}, {}
     sub = type(ctx)(ctx.prop, ctx.tier)
     sub.configs = list(ctx.configs)
+    # nested pairs first (their own failures are reported by the properties that name them)
+    dummy = type(ctx)(ctx.prop, ctx.tier)
+    for dep in (FY, MVT, OMS):
+        if dep not in specs and facts.has(dep["prefix"] + dep["ctor"]):
+            check_struct(dummy, facts, dep, analyzers, verified)
+            verified[dep["path"]] = dep["reset"]
     for spec in specs:
         if facts.has(spec["prefix"] + spec["ctor"]):
             check_struct(sub, facts, spec, analyzers, verified)
+            if spec["reset"]:
+                verified[spec["path"]] = spec["reset"]
     for v in sub.violations:
         ctx.violation(rule, v["fn"], "reset is not a full reset: " + v["instance"], v["where"], v["message"])
     if not sub.violations:
